@@ -16,6 +16,7 @@ type Spec struct {
 	Builds          []string // worker binaries to run the shards with (default: "default")
 	Shards          int
 	MinDistinct     int
+	MemLimit        uint64 // RLIMIT_AS for shard workers (0 = none)
 	TimeoutQuick    time.Duration
 	TimeoutThorough time.Duration
 	Exhaustive      func(tier string) bool
